@@ -1137,6 +1137,25 @@ def unit_regexkeys(inj, scratch):
     return dict(functions=[r], dropped=[d])
 
 
+def unit_strarm(inj, scratch):
+    """The whole `VariantType::String => { .. }` arm of Searcher::conforms, verbatim, as a method of a shim Searcher."""
+    frag_begin(inj)
+    s = src('src/searcher.rs', scratch)
+    it = s.fn('conforms', impl='Searcher')
+    a, b0, b1 = s.arm(r'VariantType::String', s.body_span(it), what='conforms arm VariantType::String')
+    if s.mask[b0] != '{':
+        raise AnchorLost('conforms arm VariantType::String is not a block')
+    block = dedent(s.text[b0:b1])
+    text = ('pub mod strarm {\n' + H('frag_strarm_prelude.rs') + '\nimpl Searcher {\n// ---- verbatim: the block of the arm `VariantType::String => {..}` of fn conforms ----\n'
+            '#[allow(unreachable_code, unused_variables)]\npub fn frag_string_arm(&mut self, field_value: &SV, value: &SV, op: &Op) -> bool ' + block + '\n}\n' + H('frag_strarm.kani.rs') + '\n}\n')
+    inj.new_file(FRAG_FILE, text)
+    r, d = frag_record('strarm::Searcher::frag_string_arm', 'src/searcher.rs', 'fn conforms / arm `VariantType::String => {..}` of `match field_value.get_type()` (whole block, verbatim, as a method of a shim Searcher)',
+                       block, block, ['Variant -> SV (to_string() gives its text); Regex -> recording shim (compiled text, is_match answers a harness-chosen verdict); regex_cache -> one-entry shim map; '
+                                      'convert_glob_to_pattern / convert_like_to_pattern -> tagging shims (their tables: C12.glob/like.table.*); is_glob and Op are the real items'],
+                       'regex compilation and matching (T3); get_column_expr_value (C02.operands); type dispatch')
+    return dict(functions=[r], dropped=[d], assumptions=['regex crate: Regex::new(p).is_match(s) decides whether s matches p (T3)'])
+
+
 def unit_variant(inj, scratch):
     rel = 'src/function.rs'
     s = src(rel, scratch)
